@@ -19,7 +19,41 @@ use turdb::storage::{Freelist, Storage, TableFileHeader, TABLE_MAGIC, TRUNK_MAX_
 
 const PAGE: usize = 16384;
 const HDR: usize = 16; // PageHeader size (documented trunk layout: next_trunk at 16, count at 20, entries from 24)
-static ZERO_PAGE: [u8; PAGE] = [0u8; PAGE];
+/// Pages are kept 8-byte aligned like mmap'd pages are (`TrunkHeader::from_bytes` needs 4): a
+/// `Box<[u8]>` is only 1-aligned, which malloc hides natively but Miri does not.
+static ZERO_WORDS: [u64; PAGE / 8] = [0u64; PAGE / 8];
+
+struct APage(Box<[u64]>);
+
+impl APage {
+    fn zeroed() -> Self {
+        APage(vec![0u64; PAGE / 8].into_boxed_slice())
+    }
+    fn copy_of(src: &[u8]) -> Self {
+        let mut p = APage::zeroed();
+        p.bytes_mut().copy_from_slice(src);
+        p
+    }
+    fn bytes(&self) -> &[u8] {
+        // SAFETY: u64 -> u8 reinterpretation of an initialised, exclusively owned buffer
+        unsafe { std::slice::from_raw_parts(self.0.as_ptr() as *const u8, PAGE) }
+    }
+    fn bytes_mut(&mut self) -> &mut [u8] {
+        // SAFETY: as above
+        unsafe { std::slice::from_raw_parts_mut(self.0.as_mut_ptr() as *mut u8, PAGE) }
+    }
+}
+
+impl Clone for APage {
+    fn clone(&self) -> Self {
+        APage(self.0.clone())
+    }
+}
+
+fn zero_page() -> &'static [u8] {
+    // SAFETY: u64 -> u8 reinterpretation of an immutable static
+    unsafe { std::slice::from_raw_parts(ZERO_WORDS.as_ptr() as *const u8, PAGE) }
+}
 
 // ---------------------------------------------------------------------------------------------
 // storages
@@ -29,7 +63,7 @@ static ZERO_PAGE: [u8; PAGE] = [0u8; PAGE];
 #[derive(Clone)]
 struct SparseStore {
     n: u32,
-    pages: HashMap<u32, Box<[u8]>>,
+    pages: HashMap<u32, APage>,
 }
 
 impl SparseStore {
@@ -44,15 +78,15 @@ impl Storage for SparseStore {
             bail!("page {} out of bounds (page_count={})", p, self.n);
         }
         Ok(match self.pages.get(&p) {
-            Some(b) => &b[..],
-            None => &ZERO_PAGE[..],
+            Some(b) => b.bytes(),
+            None => zero_page(),
         })
     }
     fn page_mut(&mut self, p: u32) -> Result<&mut [u8]> {
         if p >= self.n {
             bail!("page {} out of bounds (page_count={})", p, self.n);
         }
-        Ok(&mut self.pages.entry(p).or_insert_with(|| vec![0u8; PAGE].into_boxed_slice())[..])
+        Ok(self.pages.entry(p).or_insert_with(APage::zeroed).bytes_mut())
     }
     fn grow(&mut self, c: u32) -> Result<()> {
         if c > self.n {
@@ -115,7 +149,7 @@ impl<S: Storage> Storage for Tracked<S> {
 /// copied.
 struct Overlay<'a, S> {
     base: &'a S,
-    dirty: HashMap<u32, Box<[u8]>>,
+    dirty: HashMap<u32, APage>,
     page0: Cell<u64>,
     oob: Cell<u64>,
 }
@@ -138,17 +172,17 @@ impl<'a, S: Storage> Storage for Overlay<'a, S> {
     fn page(&self, p: u32) -> Result<&[u8]> {
         self.note(p);
         match self.dirty.get(&p) {
-            Some(b) => Ok(&b[..]),
+            Some(b) => Ok(b.bytes()),
             None => self.base.page(p),
         }
     }
     fn page_mut(&mut self, p: u32) -> Result<&mut [u8]> {
         self.note(p);
         if !self.dirty.contains_key(&p) {
-            let copy = self.base.page(p)?.to_vec().into_boxed_slice();
+            let copy = APage::copy_of(self.base.page(p)?);
             self.dirty.insert(p, copy);
         }
-        Ok(&mut self.dirty.get_mut(&p).unwrap()[..])
+        Ok(self.dirty.get_mut(&p).unwrap().bytes_mut())
     }
     fn grow(&mut self, _c: u32) -> Result<()> {
         bail!("probe overlay cannot grow")
@@ -940,7 +974,9 @@ impl<'a> Runner<'a> {
             }
             self.shrunk.insert(v.sig.clone());
             let prefix = &h.ops[..v.at.min(h.ops.len())];
-            let small = shrink(&h.env, prefix, &v.sig, 300);
+            // (under Miri a re-execution of a multi-trunk history costs seconds)
+            let budget = if !cfg!(miri) { 300 } else if h.env.pages > 256 { 0 } else { 40 };
+            let small = if budget == 0 { prefix.to_vec() } else { shrink(&h.env, prefix, &v.sig, budget) };
             let (viols2, _, executed) = exec_ops(&h.env, &small);
             let info2 = viols2.iter().find(|x| x.sig == v.sig).map(|x| x.info.clone()).unwrap_or(Value::Null);
             let detail = json!({
@@ -1055,7 +1091,7 @@ pub fn run(a: &Args) -> i32 {
                 1 => Order::Highest,
                 _ => Order::Random,
             };
-            let env = Env { pages: 6, page0_table_id: if hdr_ok && code % 4 == 3 { 1 + (code % 5) as u32 } else { 0 }, scribble: code % 2 == 1, backing: if code % 7 == 0 { 1 } else { 0 } };
+            let env = Env { pages: 6, page0_table_id: if hdr_ok && code % 4 == 3 { 1 + (code % 5) as u32 } else { 0 }, scribble: code % 2 == 1, backing: if code % 7 == 0 && !miri { 1 } else { 0 } };
             macro_rules! body {
                 ($store:expr) => {{
                     let mut h = Hist::new(env.clone(), $store);
@@ -1085,14 +1121,15 @@ pub fn run(a: &Args) -> i32 {
 
     let t1 = r.ctx.elapsed();
     // 2. random mixes on small page sets, probe after every op
-    let n_small = if miri { 6 } else if quick { 3000 } else { 40_000 };
+    let n_small = if miri { 6 } else if quick { 3000 } else { 25_000 };
     for i in 0..n_small {
         if i % 64 == 0 && r.ctx.elapsed() > caps[1] {
             truncated.push("random_small");
             break;
         }
         let pages = rng.usize(4, if miri { 24 } else { 160 }) as u32;
-        let backing = if i % 5 == 0 { 1 } else { 0 };
+        // (crate::memstore pages are 1-aligned boxes: fine behind malloc, not under Miri)
+        let backing = if i % 5 == 0 && !miri { 1 } else { 0 };
         let env = mk_env(&mut rng, pages, hdr_ok, backing);
         let nops = rng.usize(5, if miri { 40 } else { 300 });
         let bias = rng.below(100);
@@ -1193,7 +1230,7 @@ pub fn run(a: &Args) -> i32 {
             // lay down `trunks` trunk pages: each real release of a trunk page + one real entry,
             // then Fill to d entries short of full, then real releases across the boundary
             let mut next = 1u32;
-            let mut budget = if miri { 260usize } else { rng.usize(50, 1500) };
+            let mut budget = if miri { 150usize } else { rng.usize(50, 1500) };
             for _t in 0..trunks {
                 if h.dead {
                     break;
@@ -1238,6 +1275,9 @@ pub fn run(a: &Args) -> i32 {
     }
 
     let t4 = r.ctx.elapsed();
+    if miri {
+        eprintln!("C34 miri sections: exhaustive {:.0}s random {:.0}s fill {:.0}s", t1, t2 - t1, t4 - t3);
+    }
     r.ctx.extra.insert("section_wall_s".into(), json!({"exhaustive_small": t1, "random_small": t2 - t1, "multi_trunk_real": t3 - t2, "multi_trunk_fill": t4 - t3}));
     r.ctx.extra.insert("sections_truncated_by_time_cap".into(), json!(truncated));
     let (histories, multi, three, violating, agg) = (r.histories, r.multi_trunk, r.three_trunk, r.violating_histories, r.agg.clone());
